@@ -1,6 +1,6 @@
 (* C03 - parsers survive arbitrary bytes: no panic, no hang, bounded memory.
-   Statements only; proofs are in Cbor/ParseSafety.v. *)
-From SF Require Import Base.Prelude Core.Events Cbor.Parse Cbor.ParseSafety.
+   Statements only; proofs are in Cbor/ParseSafety.v, Cbor/ConformanceProofs.v, Json/ParseSafety.v. *)
+From SF Require Import Base.Prelude Core.Events Cbor.Spec Cbor.Parse Cbor.ParseSafety Cbor.ConformanceProofs Json.Parse Json.ParseSafety.
 
 (* CBOR parser model: for every byte string, every chunking and every visitor-failure
    index the run returns events and a verdict - it is never [Panic] (no Go index or slice
@@ -25,3 +25,34 @@ Theorem C03_cbor_space : forall vfail chunks p s e, forallb all_bytes chunks = t
   (length (p_lstack p) <= length (concat chunks))%nat.
 Proof. exact ParseSafety.C03_cbor_space. Qed.
 Print Assumptions C03_cbor_space.
+
+(* Input that ends in the middle of a value is reported as an error by the one-shot
+   Parse (every non-empty input the RFC reference decoder classifies as truncated). *)
+Theorem C03_cbor_truncated_is_error : forall b, all_bytes b = true -> (zlen b <=? MaxInt64) = true -> b <> [] ->
+  cbor_decode b = RTruncated -> exists evs e, run_parse None b = Ok (evs, e) /\ e <> nilE.
+Proof. exact C03_cbor_trunc. Qed.
+Print Assumptions C03_cbor_truncated_is_error.
+
+(* JSON parser model, for every float-parsing oracle [pf]: never Panic (in particular the
+   string unescaper never indexes beyond its input: short \u escapes, lone surrogates,
+   an escape at the very end), never OutOfFuel; retained state is bounded by the input. *)
+Theorem C03_json_chunks_total : forall (pf : bytes -> option Z) vfail chunks,
+  exists evs e p, jrun_chunks pf vfail chunks = Ok (evs, e, p).
+Proof. exact C03_json_chunks_total_any. Qed.
+Print Assumptions C03_json_chunks_total.
+
+Theorem C03_json_parse_total : forall (pf : bytes -> option Z) vfail b,
+  exists evs e p, jrun_parse pf vfail b = Ok (evs, e, p).
+Proof. exact C03_json_parse_total_any. Qed.
+Print Assumptions C03_json_parse_total.
+
+Theorem C03_json_unquote_safe : forall s, unquote s <> UQCrash.
+Proof. exact unquote_safe_any. Qed.
+Print Assumptions C03_json_unquote_safe.
+
+Theorem C03_json_space : forall (pf : bytes -> option Z) vfail chunks evs e p,
+  jrun_chunks pf vfail chunks = Ok (evs, e, p) ->
+  (length (jp_lit p) <= length (concat chunks))%nat /\
+  (length (jp_states p) <= length (concat chunks))%nat.
+Proof. exact ParseSafety.C03_json_space. Qed.
+Print Assumptions C03_json_space.
